@@ -59,6 +59,7 @@ func init() {
 		mp.add(e2PhaseFor("C09", e2Oracles{merges: true, replica: true}))
 		mp.add(racePlan(40, 800), func(w *W, idx int) { mergeLinRound(w, idx) })
 		mp.add(streamPhaseFor("C09", 4, 40))
+		mp.add(probePhaseFor("C09"))
 		register(&Property{ID: "C09", Level: "exploration",
 			Rule:   "one case = 48 schedules of 2-3 scripted writers merging into the same rows (additive int64/float64 with distinct bits, order-sensitive v*3+d, string concatenation) mixed with overwrites, in one and two blocks, some beside a snapshot; after all writers joined every block must equal the fold of all commits in the order they reached the logger, and the replicas fed the rewritten (absolute) values must equal the primary; distinct = distinct schedule traces",
 			Assume: concAssume, Plan: mp.Plan, Run: mp.Run, MinEvents: map[string]int64{"schedules_executed": 500, "schedules_with_reordered_commits": 50}})
